@@ -10,6 +10,12 @@ def parseFlags (s : String) : Option (List Server) :=
 
 def judgeUpsel (fields : List String) : String :=
   match fields with
+  | ["alldown", c1, _m1, c2, _m2, c3, _m3, c4, _m4] =>
+    -- no server healthy: every request (also repeated ones for the same URL) gets a 5xx, none is left hanging
+    -- (code -1 = no answer within 3 s); once the server is back the URL is served
+    let bad5 := [c1, c2, c3].any fun c => match c.toInt? with | some n => n < 500 | none => true
+    let trip := (if bad5 then " TRIP no_5xx" else "") ++ (if c4 ≠ "200" then " TRIP no_server_while_healthy" else "")
+    s!"ok alldown 1{trip}"
   | [_i, pol, flags, rr, "=>", chosen, code] =>
     match unhex pol, parseFlags flags, rr.toNat?, chosen.toInt?, code.toNat? with
     | some pol, some ss, some rr, some chosen, some code =>
